@@ -584,6 +584,42 @@ def h_resize_worker_leaves(i):
     return res
 
 
+def h_unwatched_new_worker(i):
+    """F10: all workers of a pool have timed out; a submit() spawns a new worker which dies at start-up, after the manager thread (woken
+    by submit *before* the spawn) went back to waiting on the sentinels it knew. The real submit()/manager must still resolve the future."""
+    import signal
+    import time
+    from loky.process_executor import ProcessPoolExecutor
+    bound = float(i.get("bound", 10))
+    ex = ProcessPoolExecutor(max_workers=1, timeout=0.5)
+    ex.submit(int, 0).result()
+    t0 = time.time()
+    while ex._processes and time.time() - t0 < 30:
+        time.sleep(0.05)
+    orig = ex._adjust_process_count
+
+    def adjust_then_lose_the_worker():
+        time.sleep(0.3)      # schedule made deterministic: the manager thread is back in its wait before the worker exists
+        orig()
+        p = list(ex._processes.values())[-1]
+        os.kill(p.pid, signal.SIGKILL)
+        p.join()
+
+    ex._adjust_process_count = adjust_then_lose_the_worker
+    outcome = None
+    try:
+        f = ex.submit(int, 1)
+        try:
+            outcome = "result %r" % (f.result(timeout=bound),)
+        except BaseException as e:
+            outcome = type(e).__name__
+    except BaseException as e:
+        outcome = "submit raised " + type(e).__name__
+    hung = outcome == "TimeoutError"
+    return {"reproduced": hung, "observed": {"future": "unresolved after %.0fs" % bound if hung else outcome, "idle_workers_had_left": not t0 is None},
+            "expected": {"future": "fails with TerminatedWorkerError (the death is detected)"}, "_hard_exit": True}
+
+
 def main():
     name, inputs, repo = sys.argv[1], json.loads(sys.argv[2]), sys.argv[3]
     sys.path.insert(0, repo)
